@@ -101,6 +101,12 @@ func splitSubPath(src string) (string, string) {
 	}
 
 	idx += offset
+	// A package address may itself end in a slash, and then prints with three
+	// slashes in front of its sub-path ("proto://dom.com/path///sub" is
+	// "proto://dom.com/path/" and "sub"): the last two are the separator.
+	if idx+2 < stop && src[idx+2] == '/' {
+		idx++
+	}
 	subdir := src[idx+2:]
 	src = src[:idx]
 
